@@ -60,6 +60,14 @@ CHECKS.update({
 })
 
 CHECKS.update({
+    "C14": ("exploration",
+            "model-based property testing through the real server binary (reference count per tenant, admission oracle at the boundary) + racing client pairs followed by an admission probe",
+            "Part sequence: one tenant with limit 3..6; generated Insert (new/existing/invalid), BulkInsert and BulkLoadHnsw (duplicates, existing+new, invalid items), Delete of present/absent ids, BatchDelete by ids (duplicates, foreign ids) and by filter, FlushHotTier, SIGTERM and SIGKILL restarts. After EVERY RPC: admission outcome vs model count, BulkQuery census == model, /usage vector_count == live count; at the end fill to the limit (each insert must be admitted) and one more must be RESOURCE_EXHAUSTED, so a drifted counter is visible through admission alone. Part race: two real clients race insert||delete, overwrite||batch-delete, bulk-insert||delete on the same ids for 150-650 rounds, then census + the same final probe.",
+            "The race part runs under the OS scheduler: a clean pass there is weak evidence (it found C14-F1 within seconds, now fixed and kept as a regression replay). After SIGKILL /usage is not judged (persisted periodically). A BulkLoadHnsw refused only because invalid items were counted in its reservation is excluded (counted).",
+            "DESIGN.md §3 C14"),
+})
+
+CHECKS.update({
     "C01": ("fault_enumeration",
             "crash-point enumeration over generated histories: LD_PRELOAD syscall trace -> file-system model -> every effect-log prefix x failure model, recovered by the real strict recovery and compared with the reference model",
             "Each generated history (writes, batch deletes, metadata updates, manual snapshots, clean restarts; snapshot interval x rotation x capacity x 4 fsync policies) runs once under the syscall tracer; EVERY prefix of its file-system effect log and torn prefixes (1, half, len-1 bytes) of every write is a crash point; each is materialised under process kill and, for fsync-every-write policies, under power loss (drop all unsynced + 2 seeded in-order prefix choices per file/directory) and recovered with the real strict recover: start-up must succeed and the dump must equal model(acknowledged) or model(acknowledged + in-flight). One state in eight is crashed again at every effect of its own recovery. 480 histories / ~140k distinct crash states in the quick tier; complete over the crash points of each generated history.",
